@@ -7,9 +7,10 @@
 //! shared reservations (a consumer may own several, created with `new_empty`), initial sizes
 //! obtained with `try_grow` on the un-instrumented set-up thread; 2–3 actors, each a script of 1–4
 //! ops out of the *fallible / saturating* API: `try_grow`, `grow`, `try_shrink`, `free`,
-//! `try_resize` on a shared reservation, and `Own` = register a fresh consumer, (try_)grow it, keep
-//! it to the end of the script, drop it there (free + unregister under the baton). Never generated:
-//! `shrink`/`split`/`resize` (documented to panic when the size moved underneath), `take` (`&mut`),
+//! `try_resize` on a shared reservation, `Own` = register a fresh consumer, (try_)grow it, keep it to
+//! the end of the script, drop it there (free + unregister under the baton), and `Fork` = `new_empty()`
+//! / `split(0)` off a shared reservation, (try_)grow the private piece, drop it at the end. Never generated:
+//! `shrink`/`split(n > 0)`/`resize` (documented to panic when the size moved underneath), `take` (`&mut`),
 //! `reset_peak` (documented to be called between queries, not during one). The interleaving is a
 //! `sched::Schedule` (<= 3 preemptions (thorough 4) placed by (gap, pick), forced choices).
 //!
@@ -31,7 +32,7 @@
 //!   * `PeakRecordingPool`: `peak_reserved = max_reserved` (no reset), `max(total at set-up, final
 //!     total) <= max_reserved <= initial + all granted growth`.
 //! `StepLimit` is inconclusive. Besides the generated search, `extra` enumerates *all* schedules with
-//! <= 2 preemptions (thorough 3) of five fixed two/three-actor scenarios (`sched::explore`).
+//! <= 3 preemptions (thorough 4) of five fixed two/three-actor scenarios (`sched::explore`).
 //!
 //! Non-trivial: >= 1 preemption landed on a yield point inside memory_pool/ (label
 //! `preempt:pool-vs-reservation` when it separates a pool update from the reservation's own atomic).
@@ -68,6 +69,9 @@ pub enum COp {
     TryResize { r: u16, n: usize },
     /// register a fresh consumer, grow it by n (fallibly or not), drop it at the end of the script
     Own { spill: bool, n: usize, fallible: bool },
+    /// `new_empty()` (even `via_split`: `split(0)`) off shared reservation r: a private reservation of the
+    /// same consumer, grown by n, dropped at the end of the script
+    Fork { r: u16, n: usize, fallible: bool, via_split: bool },
 }
 
 #[derive(Clone, Debug, Serialize, Deserialize)]
@@ -90,6 +94,7 @@ enum Log {
     Free { r: usize, freed: usize },
     TryResize { r: usize, ok: bool },
     Own { n: usize, granted: bool, fallible: bool, spill: bool },
+    Fork { r: usize, n: usize, granted: bool, fallible: bool },
 }
 
 struct Outcome {
@@ -180,6 +185,18 @@ fn run_case(case: &Case, schedule: &Schedule) -> Outcome {
                         owned.push(h);
                         Log::Own { n: *n, granted, fallible: *fallible, spill: *spill }
                     }
+                    COp::Fork { r, n, fallible, via_split } => {
+                        let r = pick_index(*r, shared.len());
+                        let h = if *via_split { shared[r].split(0) } else { shared[r].new_empty() };
+                        let granted = if *fallible {
+                            h.try_grow(*n).is_ok()
+                        } else {
+                            h.grow(*n);
+                            true
+                        };
+                        owned.push(h);
+                        Log::Fork { r, n: *n, granted, fallible: *fallible }
+                    }
                 };
                 log.lock().unwrap().push(entry);
             }
@@ -230,6 +247,7 @@ fn run_case(case: &Case, schedule: &Schedule) -> Outcome {
         let mut infallible = vec![false; nshared];
         let mut any_infallible = false;
         let mut own_granted = 0usize;
+        let mut fork_granted = vec![0usize; ncons];
         let mut own_spill = false;
         let mut denied = 0usize;
         for l in logs.iter().flatten() {
@@ -267,6 +285,17 @@ fn run_case(case: &Case, schedule: &Schedule) -> Outcome {
                         any_infallible = true;
                     }
                     own_spill |= *spill;
+                }
+                Log::Fork { r, n, granted: g, fallible } => {
+                    if *g {
+                        own_granted += n;
+                        fork_granted[cons_of[*r]] += n;
+                    } else {
+                        denied += 1;
+                    }
+                    if !fallible {
+                        any_infallible = true;
+                    }
                 }
             }
         }
@@ -341,7 +370,7 @@ fn run_case(case: &Case, schedule: &Schedule) -> Outcome {
             }
             for (name, _, reserved, peak) in &got {
                 let c: usize = name[1..].parse().unwrap_or(0);
-                let ever: usize = (0..nshared).filter(|r| cons_of[*r] == c).map(|r| init[r] + granted[r]).sum();
+                let ever: usize = (0..nshared).filter(|r| cons_of[*r] == c).map(|r| init[r] + granted[r]).sum::<usize>() + fork_granted.get(c).copied().unwrap_or(0);
                 let res = (0..nshared).any(|r| cons_of[r] == c && resized[r]);
                 if peak < reserved || (!res && *peak > ever) {
                     return Err(format!("consumer {name}: reserved {reserved}, peak {peak}, ever granted {ever}"));
@@ -391,7 +420,8 @@ fn cop_strategy(l: usize) -> BoxedStrategy<COp> {
         4 => (r, n.clone()).prop_map(|(r, n)| COp::TryShrink { r, n }),
         3 => r.prop_map(|r| COp::Free { r }),
         2 => (r, n.clone()).prop_map(|(r, n)| COp::TryResize { r, n }),
-        2 => (any::<bool>(), n, prop::bool::weighted(0.8)).prop_map(|(spill, n, fallible)| COp::Own { spill, n, fallible }),
+        2 => (any::<bool>(), n.clone(), prop::bool::weighted(0.8)).prop_map(|(spill, n, fallible)| COp::Own { spill, n, fallible }),
+        2 => (r, n, prop::bool::weighted(0.8), any::<bool>()).prop_map(|(r, n, fallible, via_split)| COp::Fork { r, n, fallible, via_split }),
     ]
     .boxed()
 }
@@ -404,7 +434,7 @@ fn case_strategy(tier: Tier) -> BoxedStrategy<Case> {
         .prop_flat_map(move |(base, wrap, limit)| {
             let shared = prop::collection::vec((any::<u16>(), size_strategy(limit)).prop_map(|(cons, init)| SharedRes { cons, init }), 1..=3);
             let scripts = prop::collection::vec(prop::collection::vec(cop_strategy(limit), 1..=4), 2..=3);
-            (prop::collection::vec(prop::bool::weighted(0.6), 1..=3), shared, scripts, Schedule::strategy(max_pre, 40, 8))
+            (prop::collection::vec(prop::bool::weighted(0.6), 1..=3), shared, scripts, Schedule::strategy(max_pre, 20, 8))
                 .prop_map(move |(consumers, shared, scripts, schedule)| Case { base, wrap, limit, consumers, shared, scripts, schedule })
         })
         .boxed()
@@ -435,12 +465,12 @@ impl Property for C17c {
         case_strategy(tier)
     }
     fn budget(&self, tier: Tier) -> Budget {
-        Budget::new(tier.pick(12_000, 600_000), tier.pick(8, 16)).min_nontrivial(tier.pick(2_000, 100_000)).case_timeout(60)
+        Budget::new(tier.pick(100_000, 2_000_000), tier.pick(8, 16)).min_nontrivial(tier.pick(10_000, 200_000)).case_timeout(60)
     }
     fn rule(&self) -> String {
-        "pool (base x wrapper, L) + 1-3 shared Arc'ed reservations of 1-3 consumers + 2-3 actor scripts of 1-4 ops {try_grow, grow, try_shrink, free, try_resize, own-consumer} + a schedule with <= 3 (thorough 4) \
+        "pool (base x wrapper, L) + 1-3 shared Arc'ed reservations of 1-3 consumers + 2-3 actor scripts of 1-4 ops {try_grow, grow, try_shrink, free, try_resize, own-consumer, fork(new_empty/split(0))} + a schedule with <= 3 (thorough 4) \
          preemptions over the yield points of hook H5; oracle at quiescence; non-trivial = at least one preemption landed on a yield point inside memory_pool/*.rs; distinct by case JSON; \
-         extra: all schedules with <= 2 (thorough 3) preemptions of 5 fixed scenarios"
+         extra: all schedules with <= 3 (thorough 4) preemptions of 5 fixed scenarios"
             .into()
     }
     fn assumptions(&self) -> Vec<String> {
@@ -470,7 +500,7 @@ impl Property for C17c {
                 summary.insert(name.to_string(), json!("skipped: matches an open known finding"));
                 continue;
             }
-            let bounds = Bounds { max_preemptions: tier.pick(2, 3), max_forced_deviations: 1, max_runs: tier.pick(30_000, 2_000_000) };
+            let bounds = Bounds { max_preemptions: tier.pick(3, 4), max_forced_deviations: tier.pick(1, 2), max_runs: tier.pick(60_000, 3_000_000) };
             let res = sched::explore(&bounds, |s| {
                 let out = run_case(&case, s);
                 match out.verdict {
